@@ -330,26 +330,6 @@ where
     M::InnerNode: HasLevel,
     M::Terminal: crate::AsciiDisplay,
 {
-    writeln!(file, ".ver {}", settings.version)?;
-    let ascii = settings.ascii || !ExportSettings::binary_supported(manager);
-    writeln!(file, ".mode {}", if ascii { 'A' } else { 'B' })?;
-
-    // TODO: other .varinfo modes?
-    writeln!(file, ".varinfo {}", VarInfo::None as u32)?;
-
-    let mut res = Ok(());
-
-    if !settings.diagram_name.is_empty() {
-        write!(file, ".dd ")?;
-        if write_replacing_control(&mut file, settings.diagram_name)? && settings.strict {
-            res = Err(io::Error::new(
-                io::ErrorKind::InvalidInput,
-                "decision diagram name must not contain control characters",
-            ));
-        }
-        writeln!(file)?;
-    }
-
     let nvars = manager.num_levels();
 
     // Map from the current level number to its internal var index (almost the
@@ -387,6 +367,33 @@ where
 
     for root in roots.iter() {
         rec_add_map(manager, &mut node_map, &mut terminal_map, root.borrowed());
+    }
+
+    writeln!(file, ".ver {}", settings.version)?;
+    // In binary mode, terminals are not described at all: the importer uses
+    // the terminal that "T" parses to. Hence, binary mode cannot represent any
+    // other terminal (e.g., the only terminal currently present in an MTBDD).
+    let ascii = settings.ascii
+        || !ExportSettings::binary_supported(manager)
+        || terminal_map
+            .iter()
+            .any(|(edge, _)| Ascii(manager.get_node(edge).unwrap_terminal()).to_string() != "T");
+    writeln!(file, ".mode {}", if ascii { 'A' } else { 'B' })?;
+
+    // TODO: other .varinfo modes?
+    writeln!(file, ".varinfo {}", VarInfo::None as u32)?;
+
+    let mut res = Ok(());
+
+    if !settings.diagram_name.is_empty() {
+        write!(file, ".dd ")?;
+        if write_replacing_control(&mut file, settings.diagram_name)? && settings.strict {
+            res = Err(io::Error::new(
+                io::ErrorKind::InvalidInput,
+                "decision diagram name must not contain control characters",
+            ));
+        }
+        writeln!(file)?;
     }
 
     let mut nnodes = 0;
